@@ -11,6 +11,9 @@ fn run(case: &mut Case) -> Result<Outcome, String> {
     let nmax = case.tier.pick(30, 60);
     let n = 1 + case.src.usize_below(nmax);
     let kind = case.src.usize_below(KINDS.len());
+    // quick tier: the B^T B + mu I systems (the ones whose runs are long) are generated at twice the order drawn, 2..=60,
+    // so that runs of more than 100 iterations occur in every tier
+    let n = if case.tier == Tier::Quick && KINDS[kind] == "spd-btb" { 2 * n } else { n };
     let mut a = gen_matrix(&mut case.src, n, kind);
     let badly_scaled = case.src.below(6) == 0;
     if badly_scaled {
@@ -118,7 +121,26 @@ fn one_solver(case: &mut Case, solver: usize, sp: &ohsl::Sparse<f64>, bv: &Vecto
                 return Err(format!("Ok(0) but x was modified: {:?} -> {:?}", x0, x));
             }
             if x.iter().any(|v| !v.is_finite()) {
-                return Err(format!("Ok({}) with a non-finite x: {:?}", it, x));
+                return Err(format!("{}: Ok({}) with a non-finite x: {:?}", SOLVERS[solver], it, x));
+            }
+            // the reported count is the number of iterations actually needed: with exactly that budget the call
+            // repeats itself bit for bit, with one less it cannot report the same or a larger count
+            if it >= 1 && (it % 4 == 1 || it > 100) {
+                let mut xr = Vector::create(x0.clone());
+                let r1 = catch(|| call(solver, sp, bv, &mut xr, it, tol));
+                let same = xr.vec.iter().zip(&x).all(|(p, q)| p.to_bits() == q.to_bits());
+                if !matches!(r1, Ok(Ok(k)) if k == it) || !same {
+                    return Err(format!("{}: Ok({}) with budget {}, but with budget {} the call answers {:?}{}", SOLVERS[solver], it, budget, it, r1, if same { "" } else { " and leaves another x" }));
+                }
+                if it >= 2 {
+                    let mut xs = Vector::create(x0.clone());
+                    if let Ok(Ok(k)) = catch(|| call(solver, sp, bv, &mut xs, it - 1, tol)) {
+                        if k > it - 1 {
+                            return Err(format!("{}: budget {} but Ok({}) reported", SOLVERS[solver], it - 1, k));
+                        }
+                    }
+                }
+                case.class("count confirmed with the exact budget");
             }
             let nb = norm2(&b);
             let nbn = if nb == 0.0 { 1.0 } else { nb };
@@ -191,7 +213,7 @@ impl Prop for C08 {
          general nonsymmetric, singular (zero row / zero column / equal rows), badly scaled by 2^+-20 rows and columns}; optionally the whole matrix times 2^k, |k| <= 30; right-hand side zero / consistent / random of scale 1e-6..1e6 (1/3 of them 1e-140..1e140); initial guess zero / random / exact / huge (1e8) / tiny non-zero (1e-20..1e-12); \
          tol = 10^[-12,-2]; budget in {0,1,2,3,n,10n,1000,random}; all five entry points (CG, BiCG itol 1/2, BiCGSTAB, QMR) on every generated system of every kind. The implication is judged whenever the answer is Ok: \
          iterations <= budget, x finite, ||b - A x||_2 (dense copy, double-double) <= tol*||b||*(1+1e-9) + 200(n+2)*eps*(it+1)*(||A||_F*Xmax + ||b||), Xmax first max(||x0||,||x||) and, only if that fails, measured by re-running the solver with budgets 1..it; \
-         budget 0 or Ok(0) => x bitwise untouched. Non-trivial: Ok with >= 2 iterations and n >= 5. distinct = distinct decoded choice sequence."
+         budget 0 or Ok(0) => x bitwise untouched; for Ok(it) with it = 1 mod 4 or it > 100 the call is repeated with budget it (must answer Ok(it) and the same x bit for bit) and with budget it-1 (must not report it-1 < count). Non-trivial: Ok with >= 2 iterations and n >= 5. distinct = distinct decoded choice sequence."
             .into()
     }
     fn assumptions(&self) -> Vec<String> {
